@@ -163,12 +163,22 @@ C04_ReparseFails(e, input, r, h) ==
              \cup (IF r # f THEN {<< "C04", "header-alone-differs", e >>} ELSE {})
 
 (* ---- C05: every proper prefix of an accepted header is incomplete ---- *)
+(* the flags of the result, of the error value it carries (einc / ecmp), of the error wrapped
+   inside a byte-entry-point error (iinc / icmp) and of the result inside an auto-detection result *)
+ErrFlagFails(o, e) ==
+    IF ~IsErr(o) THEN {}
+    ELSE (IF o.ecmp = o.einc \/ o.einc # o.inc THEN {<< "C05", "is_complete-not-negation-on-error-value", e >>} ELSE {})
+         \cup (IF "iinc" \in DOMAIN o /\ (o.icmp = o.iinc \/ o.iinc # o.inc) THEN {<< "C05", "is_complete-not-negation-on-inner-error", e >>} ELSE {})
+
 FlagFails(v) ==
     LET one(e) ==
             LET o == v[e]
             IN  IF ~HasFlags(o) THEN {}
                 ELSE (IF o.cmp = o.inc THEN {<< "C05", "is_complete-not-negation", e >>} ELSE {})
                      \cup (IF IsOk(o) /\ o.inc THEN {<< "C05", "success-flagged-incomplete", e >>} ELSE {})
+                     \cup (IF e = "auto" THEN (IF o.r.cmp = o.r.inc \/ o.r.inc # o.inc THEN {<< "C05", "is_complete-not-negation-on-inner-result", e >>} ELSE {})
+                                             \cup ErrFlagFails(o.r, e)
+                           ELSE ErrFlagFails(o, e))
     IN  UNION {one(e) : e \in EntryPoints}
 
 C05_Fails(b, v, h) ==
